@@ -591,8 +591,8 @@ func (m *machine) mapOrder(mp *mapV) []*mapEntry {
 			live = append(live, e)
 		}
 	}
-	if !m.mapRotOn || len(live) < 2 {
-		return live
+	if !m.mapRotOn || len(live) < 2 || len(live) > 6 {
+		return live // permutations are only explored for small maps
 	}
 	// k-th permutation (factorial number system) modulo n!
 	n := len(live)
